@@ -6,6 +6,7 @@ import (
 	"fmt"
 	"io"
 	"reflect"
+	"strings"
 	"sync/atomic"
 
 	"github.com/grailbio/bigslice/frame"
@@ -59,7 +60,7 @@ func encodeStream(c combo, phase int, wview bool, lens []int) (e *encoded, err e
 	ctx := context.Background()
 	g := 0
 	var rb []byte
-	for _, m := range lens {
+	for bi, m := range lens {
 		var f frame.Frame
 		cols := make([]reflect.Value, len(c))
 		pad := 0
@@ -85,7 +86,19 @@ func encodeStream(c combo, phase int, wview bool, lens []int) (e *encoded, err e
 		if wview {
 			f = f.Slice(1, 1+m)
 		}
-		if err := enc.Write(ctx, f); err != nil {
+		var keys []interface{}
+		for ci, k := range c {
+			if k == kCustom && cols[ci].Len() > 0 {
+				key := cols[ci].Index(0).Addr().Interface()
+				cExpect.Store(key, bi)
+				keys = append(keys, key)
+			}
+		}
+		err := enc.Write(ctx, f)
+		for _, key := range keys {
+			cExpect.Delete(key)
+		}
+		if err != nil {
 			return e, fmt.Errorf("Encoder.Write: %v", err)
 		}
 		g += m
@@ -205,7 +218,7 @@ func readBack(e *encoded, d *dsts, dstSeq []int, dview bool, rkind int, st *fidS
 			return mk("n-out-of-range", nil)
 		}
 		if err != nil && err != sliceio.EOF {
-			return mk("unexpected-error", nil)
+			return mk("unexpected-error:"+normalize(err.Error()), nil)
 		}
 		for j := 0; j < n; j++ {
 			rb = s.row(rb[:0], off+j)
@@ -213,7 +226,15 @@ func readBack(e *encoded, d *dsts, dstSeq []int, dview bool, rkind int, st *fidS
 				return mk("extra-rows", map[string]interface{}{"got_row": string(rb)})
 			}
 			if string(rb) != e.truth[next+j] {
-				return mk("wrong-row", map[string]interface{}{"got_row": string(rb), "want_row": e.truth[next+j], "row_index": next + j})
+				got, want := strings.Split(string(rb), "|"), strings.Split(e.truth[next+j], "|")
+				cls := "?"
+				for ci := range e.c {
+					if ci < len(got) && ci < len(want) && got[ci] != want[ci] {
+						cls = kinds[e.c[ci]].class
+						break
+					}
+				}
+				return mk("wrong-row/col="+cls, map[string]interface{}{"got_row": string(rb), "want_row": e.truth[next+j], "row_index": next + j})
 			}
 		}
 		for i := 0; i < s.n; i++ {
